@@ -74,17 +74,21 @@ Exit(g) == CASE g.ctx = "root" -> Bodies[g.body].exit
 (* ---- def-sealing: "relying on the representation of a `def`-sealed type outside its definition" ------------- *)
 (* A and B are declared with the same right-hand side, each either sealed (`def`) or transparent (`let`).        *)
 (*   kind  "data": data | +K : Int64 end        "int": Int64                                                     *)
+(*         "self": A's right-hand side is A itself, "cycle": A = B and B = A - non-productive definitions: no     *)
+(*         structural type is ever reached, so neither a constructor nor a match is typable at A ("reject": any   *)
+(*         diagnostic; opening the seal again and again is the failure mode)                                      *)
 (*   use   "construct": a value is built at A (constructor / literal) and eliminated at A                        *)
 (*         "cross":     the value built at A is used at B                                                        *)
 (* RULE: two distinct names denote the same type iff BOTH are transparent; a literal inhabits A iff A is          *)
 (* transparent; a constructor of the declared data type always introduces into it (sealed or not).               *)
 Modes == {"def", "let"}
-SealPrograms == {[fam |-> "seal", kind |-> k, ma |-> a, mb |-> b, use |-> u] : k \in {"data", "int"}, a \in Modes, b \in Modes, u \in {"construct", "cross"}}
-SealVerdict(g) == LET built == g.kind = "data" \/ g.ma = "let"
+SealPrograms == {[fam |-> "seal", kind |-> k, ma |-> a, mb |-> b, use |-> u] : k \in {"data", "int", "self", "cycle"}, a \in Modes, b \in Modes, u \in {"construct", "cross"}}
+SealVerdict(g) == IF g.kind \in {"self", "cycle"} THEN "reject" ELSE
+                  LET built == g.kind = "data" \/ g.ma = "let"
                       same == g.ma = "let" /\ g.mb = "let" IN
                   IF ~built THEN "mismatch" ELSE IF g.use = "cross" /\ ~same THEN "mismatch" ELSE "accept"
 \* sealing never makes more programs typable: replacing a `let` by a `def` can only turn accept into mismatch
-SealMonotone == \A g, h \in SealPrograms :
+SealMonotone == \A g, h \in {x \in SealPrograms : x.kind \in {"data", "int"}} :
                   (g.kind = h.kind /\ g.use = h.use /\ (g.ma = "def" => h.ma = "def") /\ (g.mb = "def" => h.mb = "def") /\ SealVerdict(h) = "accept")
                      => SealVerdict(g) = "accept"
 
